@@ -400,6 +400,8 @@ class NetworkService(ModelElement):
         iff = Interface(name=name, node_id=node_id, parent_node_id=self.node_id,
                         etype=ElementType.NEW, topo=self.topo, itype=itype,
                         **kwargs)
+        # keep the cached list current: the uniqueness check above and interface_list depend on it
+        self._interfaces.append(iff)
         return iff
 
     def remove_interface(self, *, name: str) -> None:
@@ -435,14 +437,14 @@ class NetworkService(ModelElement):
                                  interfaces=[self_iface, other_iface], ltype=LinkType.L2Path)
             except Exception:
                 ns.topo.graph_model.remove_cp_and_links(node_id=other_iface.node_id)
+                ns._interfaces = list(filter((lambda x: x.node_id != other_iface.node_id), ns._interfaces))
                 raise
         except Exception:
             # peering is all or nothing: do not leave this service's port behind
             self.topo.graph_model.remove_cp_and_links(node_id=self_iface.node_id)
+            self._interfaces = list(filter((lambda x: x.node_id != self_iface.node_id), self._interfaces))
             raise
-        # update interface lists
-        self._interfaces.append(self_iface)
-        ns._interfaces.append(other_iface)
+        # the interface lists were updated by add_interface
 
     def unpeer(self, ns) -> None:
         """
